@@ -3,8 +3,10 @@
 package manager
 
 import (
+	"os"
 	"time"
 
+	"github.com/elastos/Elastos.ELA/dpos/log"
 	"github.com/elastos/Elastos.ELA/dpos/state"
 	"github.com/elastos/Elastos.ELA/zzverif/nd"
 )
@@ -14,12 +16,20 @@ type zzArbiters struct {
 	n                 int
 }
 
-func (a *zzArbiters) GetArbitersCount() int                          { return a.n }
+func (a *zzArbiters) GetArbitersCount() int                        { return a.n }
 func (a *zzArbiters) GetNextOnDutyArbitrator(offset uint32) []byte { return []byte{byte(offset)} }
 
 type zzListener struct{ calls int }
 
 func (l *zzListener) OnViewChanged(isOnDuty bool) { l.calls++ }
+
+// natively the dpos logger must exist (the engine stubs dpos/log.*)
+func zzInitLog() {
+	if !nd.Symbolic() {
+		d, _ := os.MkdirTemp("", "zzverif-log-")
+		log.Init(d, 255, 0, 0)
+	}
+}
 
 func zzNewView(n int, tol time.Duration, start time.Time) *view {
 	return &view{publicKey: []byte{1}, signTolerance: tol, viewStartTime: start,
@@ -43,6 +53,7 @@ func zzC26times(w int64) (t0, t1, t2, t3 time.Time) {
 
 // ZZ_C26_v0: the pre-V1 schedule (offset = elapsed / tolerance).
 func ZZ_C26_v0() {
+	zzInitLog()
 	w := int64(90)
 	if nd.Tier() > 0 {
 		w = 3600
@@ -73,6 +84,7 @@ func ZZ_C26_v0() {
 
 // ZZ_C26_v1: the V1 schedule, one evaluation versus three.
 func ZZ_C26_v1() {
+	zzInitLog()
 	w := int64(60)
 	nmax := 6
 	if nd.Tier() > 0 {
